@@ -40,7 +40,11 @@ def gen_program(rng, i, profile):
                  + ([f"C {k}"] if rng.random() < 0.3 else [])]
         if rng.random() < 0.3:
             progs.append([f"G {k}"] + S())
-        if rng.random() < 0.35:
+        if rng.random() < 0.25:
+            # two invalidating threads: one parked between its clock read and its store (D-S5)
+            progs = [["A"] + ([f"G {k}"] if rng.random() < 0.3 else []),
+                     adv() + [f"I {k} 101"] + adv() + ["A", f"G {k}"]]
+        elif rng.random() < 0.35:
             # one thread inserts, invalidates everything at a later reading and looks; the other re-inserts the key
             progs = [[f"I {k} 101"] + S(0.5) + adv() + ["A"] + (adv() if rng.random() < 0.6 else []) + [f"G {k}"],
                      [f"I {k} 102"] + ([f"G {k}"] if rng.random() < 0.3 else [])]
